@@ -16,8 +16,8 @@ partial def toNode (ss : Stylesheet) : Instr → Option Core.Node
   | .text _ => some (.mk .text [])
   | .valueOf _ => some (.mk .text [])
   | .lre name attrs body =>
-    (body.mapM (toNode ss)).map fun ks => .mk (.lre name) (attrs.map (fun a => Core.Node.mk (.attr a.1) []) ++ ks)
-  | .attribute [.lit name] _ _ => some (.mk (.attr name) [])
+    (body.mapM (toNode ss)).map fun ks => .mk (.lre (sheetName name)) (attrs.map (fun a => Core.Node.mk (.attr (sheetName a.1)) []) ++ ks)
+  | .attribute [.lit name] nsEmpty _ => some (.mk (.attr (if nsEmpty then localOf name else sheetName name)) [])
   | .copyOf _ => some (.mk .emit [])
   | .comment _ => some (.mk .emit [])
   | .pi _ _ => some (.mk .emit [])
